@@ -13,6 +13,11 @@ STD = {"org.varlink.service.InterfaceNotFound": ("I", "interface"), "org.varlink
 def reply_frame(rng):
     """-> (bytes without NUL, expected receive result or None when only the model is consulted)"""
     r = rng.random()
+    if r < 0.06:
+        # a reply longer than the read buffer (4096) / than a socket buffer
+        p = b'{"pad":"' + b"p" * rng.choice([4000, 4075, 4090, 4200, 9000, 70000]) + b'","n":1}'
+        cont = rng.random() < 0.4
+        return b'{"parameters":' + p + (b',"continues":true' if cont else b"") + b"}", "ok %d R%s" % (4 if cont else 0, p.hex())
     if r < 0.45:
         p = rng.choice([None, b"{}", J.text_of(rng, None, 2), b'{"a":1}', b"[1,2]", b'"s"'])
         cont = rng.random() < 0.4
@@ -52,7 +57,7 @@ def reply_frame(rng):
 def main(pid, argv):
     ck = V.Check(pid, argv)
     ck.rule = ("cases: all 16 flag combinations (plus flag words with extra bits) x methods x parameters through Connection.Send into a recording connection, then "
-               "reply byte streams (valid replies, continues sequences, error frames incl. the four standard names with right/wrong/missing parameters, null, wrong-shape "
+               "reply byte streams (valid replies incl. frames of 4 KiB - 70 KiB, continues sequences, error frames incl. the four standard names with right/wrong/missing parameters, null, wrong-shape "
                "JSON, mutated and random bytes) cut at EVERY byte offset (the server dies there) and delivered in generated segmentations; receive is called once more "
                "than there are frames. distinct = distinct (flags, stream, cut); non-trivial = stream with at least one complete frame")
     ck.assumptions = ["the connection is an in-memory net.Conn delivering exactly the scripted chunks and then EOF; OS transports are covered by C03/C17"]
@@ -75,8 +80,16 @@ def main(pid, argv):
         # reply streams, every cut
         for _ in range(300 if thorough else 40):
             frames = [reply_frame(rng) for _ in range(rng.choice([1, 1, 2, 3, 5]))]
+            # a mutated frame may contain a NUL of its own and then counts as two frames: from there on only the model is consulted
+            for fi, (fb, _) in enumerate(frames):
+                if b"\x00" in fb:
+                    frames = frames[:fi] + [(x, None) for x, _ in frames[fi:]]
+                    break
             stream = b"".join(f + b"\x00" for f, _ in frames)
             cuts = range(len(stream) + 1) if len(stream) <= 300 else sorted(rng.sample(range(len(stream) + 1), 300))
+            if len(stream) > 300:
+                ends = [i + 1 for i, ch in enumerate(stream) if ch == 0]
+                cuts = sorted(set(list(cuts)[:260]) | {len(stream)} | set(ends[:20]) | {e - 1 for e in ends[:20]})
             for k in cuts:
                 pre = stream[:k]
                 lines.append("%d %s {} %d %s" % (rng.choice([0, 1]), b"a.b.M".hex(), len(frames) + 1, ",".join(c.hex() for c in S.segment(rng, pre)) or "-"))
@@ -116,14 +129,16 @@ def main(pid, argv):
                 ck.distinct.add(line)
             recs = [r[len("recv="):] for r in il.split(" ; ")[1:]]
             complete = pre.count(b"\x00")
+            actual = pre.split(b"\x00")
             for k, r in enumerate(recs):
                 if k < complete:
-                    exp = frames[k][1]
+                    # the k-th frame on the wire is the k-th generated one unless an earlier (mutated) frame contained a NUL
+                    exp = frames[k][1] if k < len(frames) and frames[k][0] == actual[k] else None
                     if r == "eof":
                         bad = "receive %d reported end of stream although frame %d was fully received" % (k, k)
                     elif exp is not None and r != exp:
-                        bad = "receive %d returned %r for frame %r, expected %r" % (k, r[:120], frames[k][0][:80], exp)
-                    elif strict_json(frames[k][0]) is Ellipsis and not r.startswith("other"):
+                        bad = "receive %d returned %r for frame %r, expected %r" % (k, r[:120], actual[k][:80], exp)
+                    elif strict_json(actual[k]) is Ellipsis and not r.startswith("other"):
                         bad = "receive %d reported %r for a frame that is not valid JSON" % (k, r[:80])
                 elif r != "eof":
                     bad = "receive %d reported %r although the stream ended before that frame's NUL" % (k, r[:80])
